@@ -17,6 +17,8 @@ thinnest claim of the set — the G compression values are not decided):
   constants  SYNC_POINTS = 4, 1024-byte blocks, type codes d=0 i=1 id=2, G rotations {32,24,16,63},
              fBlaMka a + b + 2 lo(a) lo(b); P applied to 8 rows then 8 columns
   entries    argon2::<T> and argon2_at agree (same pipeline, tag length T / tag.len())
+  shape-eval Argon2's H' (hprime for every tag length 1..200, 256, 1024; hprime_block_init) with BLAKE2b as an UNINTERPRETED
+             hash family H^n against RFC 9106 3.3 (objshape.py); BLAKE2 update_mut and keyed init by shape evaluation
 Not decided: fill_block / permutation values, memory contents."""
 import re
 
@@ -25,7 +27,7 @@ from ..poly import Poly
 from ..mir import fmt, walk, const_val
 
 EXPLANATION = __doc__
-TECHNIQUE = "canonical dataflow expressions, truth tables of branch predicates over atomic comparisons, polynomial normal form of the per-case index arithmetic (term-domain dataflow), evaluated constants; bounded shape evaluation (concrete offsets / lengths derived from the code's own length constants, symbolic contents, opaque recorded leaf calls) of the buffering loops"
+TECHNIQUE = "canonical dataflow expressions, truth tables of branch predicates over atomic comparisons, polynomial normal form of the per-case index arithmetic (term-domain dataflow), evaluated constants; bounded shape evaluation (concrete offsets / lengths derived from the code's own length constants, symbolic contents, opaque recorded leaf calls) of the buffering loops; object-level bounded shape evaluation with BLAKE2b as an uninterpreted hash family (H', block init)"
 
 M = "kdf::argon2::"
 
